@@ -80,7 +80,7 @@ impl Relation for StdOp {
         let o = self.op.as_str();
         ZkStdLibArch {
             jubjub: o.starts_with("jub") || o == "htc" || o == "mixpos",
-            poseidon: o.starts_with("poseidon") || o == "htc" || o == "mixpos",
+            poseidon: o.starts_with("poseidon") || o == "htc" || o == "mixpos" || o.starts_with("map"),
             sha2_256: o.starts_with("sha256"),
             sha2_512: o.starts_with("sha512"),
             secp256k1: o.starts_with("secp"),
@@ -257,6 +257,30 @@ impl Relation for StdOp {
                 _ => return Err(Error::Synthesis(format!("unknown op {o}"))),
             }
             return Ok(());
+        }
+        if o == "map_insert" || o == "map_get" {
+            // a map that holds (1, 5); the witness is the key (and the value to insert)
+            use midnight_circuits::{
+                hash::poseidon::PoseidonChip,
+                instructions::map::{MapCPU, MapInstructions},
+                map::cpu::MapMt,
+            };
+            let mut map = s.map_gadget().clone();
+            let init = w(0).map(|_| {
+                let mut m = MapMt::<F, PoseidonChip<F>>::new(&F::from(0u64));
+                m.insert(&F::from(1u64), &F::from(5u64));
+                m
+            });
+            map.init(l, init)?;
+            let k: AssignedNative<F> = s.assign(l, w(0).map(|v| native_of(&v)))?;
+            if o == "map_insert" {
+                let v: AssignedNative<F> = s.assign(l, w(1).map(|v| native_of(&v)))?;
+                map.insert(l, &k, &v)?;
+            } else {
+                let v = map.get(l, &k)?;
+                s.constrain_as_public_input(l, &v)?;
+            }
+            return s.constrain_as_public_input(l, &map.succinct_repr());
         }
         if o == "mixpos" {
             // something that occupies the higher advice columns deeper than the lower ones,
